@@ -130,7 +130,7 @@ CHECKS = {
    note="Trusted: R-graded conj; exact integer arithmetic for norms. The norm law is demanded as stated (all kets, or phase_dual=True)."),
  "C18": dict(engine="E-enum", design_ref="DESIGN.md 5 C18, 4.7",
    technique="exhaustive enumeration of operator strings x basis layouts on the real element builder, and of charge-conserving operators x unit state tensors on the real operator arrays; reference = Jordan-Wigner matrices (R-fock)",
-   text="(A) Every operator string of length <=4 over two modes (340), alone and summed with every string of the same net effect, on every basis layout (two one-mode sites with every subset/order of the "
+   text="(A) Every operator string of length 0 (the constant term) to 4 over two modes (341), alone and summed with every string of the same net effect, on every basis layout (two one-mode sites with every subset/order of the "
         "occupation states; one two-mode site with every order of the four states, both operator orders in the doubly occupied state and every 2-/3-state subset), and strings of length <=3 over three "
         "modes on three sites, given as FermionicOperators and as (label, symbol) pairs: the computed elements must equal the Jordan-Wigner vacuum expectation values. (B) For Z2, U1 (spinless and "
         "spinful maps), Z2Z2 and U1U1, complete and incomplete bases, 1-2 sites: the matrix of psi -> tensordot(G, psi) measured on the unit state tensor of every basis state (every total charge, odd ones "
